@@ -16,7 +16,7 @@ PROPERTY = 'C16'
 BOUNDS = ("Call sequences over the alphabet {uses(c1|c2|p|[c2,p]|c1-again|42), create_container(new|existing name), "
           "create_solution(new|existing name|declared container solvent|undeclared container solvent), "
           "create_solution_from(declared|undeclared source), transfer(c1->c2|c1->p[1,:]|undeclared source|undeclared "
-          "destination), remove, dilute (plain|with new_name), fill_to (declared|undeclared), start_stage(s1|s2), end_stage(s1|s2|all), bake} "
+          "destination), remove, dilute (plain|with a fresh new_name|with the name of another declared object as new_name), fill_to (declared|undeclared), start_stage(s1|s2), end_stage(s1|s2|all), bake} "
           "on the real Recipe object, explored breadth first to a fixpoint of the abstract state (locked, open stage, "
           "closed stages, declared names, names touched by steps, min(#steps, 2), whether a step renames its result); quick stops at depth 4 (387 states), thorough "
           "runs to the fixpoint (reached at depth <= 12, 1292 abstract states). Each (representative history, call) pair is executed symbolically with "
@@ -36,7 +36,7 @@ CALLS = ['uses:c1', 'uses:c2', 'uses:p', 'uses:[c2,p]', 'uses:42',
          'create_solution:s', 'create_solution:c1', 'create_solution:s@c1', 'create_solution:s@x',
          'create_solution_from:c1', 'create_solution_from:x',
          'transfer:c1>c2', 'transfer:c1>p', 'transfer:x>c2', 'transfer:c1>x',
-         'remove:c2', 'remove:x', 'dilute:c1', 'dilute:c1@renamed', 'dilute:x', 'fill_to:c2', 'fill_to:x',
+         'remove:c2', 'remove:x', 'dilute:c1', 'dilute:c1@renamed', 'dilute:c1@c2', 'dilute:x', 'fill_to:c2', 'fill_to:x',
          'start_stage:s1', 'start_stage:s2', 'end_stage:s1', 'end_stage:s2', 'end_stage:all',
          'bake']
 
@@ -121,6 +121,8 @@ def ref_step(st, call):
         arg, _, new_name = arg.partition('@')
         if arg not in dec:
             return 'ValueError', st
+        if new_name and new_name in dec and new_name != arg:
+            return 'ValueError', st     # renaming the result to the name of another declared object: a second object of that name
         if new_name:
             st['renaming'] = True       # the result is renamed; the recipe keeps addressing it by its declared name
         touched.add(arg)
